@@ -1095,16 +1095,292 @@ theorem propertiesByProfile_obs (r₁ r₂ : Reg) (h : obs r₁ = obs r₂) (ps 
   simp only [obs, Obs.mk.injEq] at h
   simp only [propertiesByProfile, h.1, h.2.1]
 
+/-! ## 10. `addProfiles` on a registry without profiles (this is how `Profiles.__init__` fills the registry) -/
+
+/-- the macros a bulk entry contributes (`if macros:` on line 251) -/
+def dm (d : ProfileDef) : Dict Str := if truthy d.macros then d.macros.getD [] else []
+
+/-- base macros updated with the macros of all entries, in order -/
+def bulkEnv (base : Dict Str) (l : List ProfileDef) : Dict Str := l.foldl (fun m d => dupdate m (dm d)) base
+
+theorem bulkEnv_sameEnv {a b : Dict Str} (h : SameEnv a b) (l : List ProfileDef) :
+    SameEnv (bulkEnv a l) (bulkEnv b l) := by
+  unfold bulkEnv
+  induction l generalizing a b with
+  | nil => simpa using h
+  | cons x t ih => simp only [List.foldl_cons]; exact ih (h.dupdate _)
+
+theorem preload_spec (r : Reg) (l : List ProfileDef) (hnd : (l.map (·.name)).Nodup) :
+    (preloadMacros r l).used = bulkEnv r.used l ∧ (preloadMacros r l).names = r.names ∧
+    (preloadMacros r l).compiled = r.compiled ∧ (preloadMacros r l).default = r.default ∧
+    (preloadMacros r l).known = r.known ∧
+    (∀ d ∈ l, macrosOf (preloadMacros r l).raw d.name = if truthy d.macros then dm d else macrosOf r.raw d.name) ∧
+    (∀ n, n ∉ l.map (·.name) → dget (preloadMacros r l).raw n = dget r.raw n) ∧
+    (∀ n, (dget (preloadMacros r l).raw n).isSome → (dget r.raw n).isSome ∨ n ∈ l.map (·.name)) := by
+  induction l generalizing r with
+  | nil => simp [preloadMacros, bulkEnv]
+  | cons a t ih =>
+    have hnd' : a.name ∉ t.map (·.name) ∧ (t.map (·.name)).Nodup := by simpa using hnd
+    by_cases ht : truthy a.macros = true
+    · have hdm : dm a = a.macros.getD [] := by simp [dm, ht]
+      obtain ⟨h1, h2, h3, h4, h5, h6, h7, h8⟩ := ih
+        { r with used := dupdate r.used (a.macros.getD []),
+                 raw := dset r.raw a.name { props := none, macros := a.macros.getD [] } } hnd'.2
+      simp only [preloadMacros, ht, if_true]
+      refine ⟨by rw [h1]; simp [bulkEnv, hdm], h2, h3, h4, h5, ?_, ?_, ?_⟩
+      · intro d hd
+        simp only [List.mem_cons] at hd
+        cases hd with
+        | inl e =>
+          subst e
+          simp only [ht, if_true]
+          have := h7 d.name hnd'.1
+          simp only [macrosOf, this, dget_dset_self, hdm]
+        | inr e =>
+          rw [h6 d e]
+          split
+          · rfl
+          · have : a.name ≠ d.name := fun h => hnd'.1 (h ▸ List.mem_map.mpr ⟨d, e, rfl⟩)
+            exact macrosOf_dset_ne _ _ _ _ this
+      · intro n hn
+        simp only [List.map_cons, List.mem_cons, not_or] at hn
+        rw [h7 n hn.2, dget_dset_ne _ _ _ _ (fun e => hn.1 e.symm)]
+      · intro n hn
+        have := h8 n hn
+        rw [dget_dset] at this
+        simp only [List.map_cons, List.mem_cons]
+        by_cases hx : a.name = n
+        · right; left; exact hx.symm
+        · simp only [hx, if_false] at this
+          cases this with
+          | inl h => left; exact h
+          | inr h => right; right; exact h
+    · have hf : truthy a.macros = false := by simpa using ht
+      have hdm : dm a = [] := by simp [dm, hf]
+      obtain ⟨h1, h2, h3, h4, h5, h6, h7, h8⟩ := ih r hnd'.2
+      simp only [preloadMacros, hf, Bool.false_eq_true, if_false]
+      refine ⟨by rw [h1]; simp [bulkEnv, hdm, dupdate_nil], h2, h3, h4, h5, ?_, ?_, ?_⟩
+      · intro d hd
+        simp only [List.mem_cons] at hd
+        cases hd with
+        | inl e =>
+          subst e
+          simp only [hf, Bool.false_eq_true, if_false]
+          simp only [macrosOf, h7 d.name hnd'.1]
+        | inr e => exact h6 d e
+      · intro n hn
+        simp only [List.map_cons, List.mem_cons, not_or] at hn
+        exact h7 n hn.2
+      · intro n hn
+        cases h8 n hn with
+        | inl h => left; exact h
+        | inr h => right; simp [h]
+
+/-- the state of the `for` loop of lines 256-257: `pre` is stored, `rest` is still to come; everything is
+expanded under the final environment `E` (all macros were loaded up front) -/
+structure Bulk (cfg : Cfg) (E : Dict Str) (pre rest : List ProfileDef) (r : Reg) : Prop where
+  names : r.names = pre.map (·.name)
+  nodup : ((pre ++ rest).map (·.name)).Nodup
+  used : SameEnv r.used E
+  rawPre : ∀ d ∈ pre, dget r.raw d.name = some { props := some d.props, macros := dm d }
+  rawRest : ∀ d ∈ rest, macrosOf r.raw d.name = dm d
+  rawDom : ∀ n, (dget r.raw n).isSome → n ∈ (pre ++ rest).map (·.name)
+  ckeys : dkeys r.compiled = r.names
+  cvals : ∀ d ∈ pre, ∃ ex, expandDict cfg.fuel E d.props = .ok ex ∧ dget r.compiled d.name = some (compileDict ex)
+  known : r.known = knownOf r.compiled
+
+theorem addStore_ok (cfg : Cfg) (r1 : Reg) (p : Str) (ps ex : Dict PVal) (ms : Dict Str)
+    (h : expandDict cfg.fuel r1.used ps = .ok ex) :
+    addStore cfg r1 p ps ms = (updateKnown { r1 with
+      names := if p ∈ r1.names then r1.names else r1.names ++ [p],
+      raw := dset r1.raw p { props := some ps, macros := ms },
+      compiled := dset r1.compiled p (compileDict ex) }, none) := by
+  unfold addStore
+  simp only [h]
+
+theorem bulk_step (cfg : Cfg) (E : Dict Str) (pre rest : List ProfileDef) (d : ProfileDef) (r : Reg)
+    (hb : Bulk cfg E pre (d :: rest) r) (hex : ∃ ex, expandDict cfg.fuel E d.props = .ok ex) :
+    (addProfile cfg r d.name d.props none).2 = none ∧
+    Bulk cfg E (pre ++ [d]) rest (addProfile cfg r d.name d.props none).1 ∧
+    (addProfile cfg r d.name d.props none).1.default = r.default := by
+  obtain ⟨ex, hex⟩ := hex
+  have hex' : expandDict cfg.fuel r.used d.props = .ok ex := by rw [expandDict_congr hb.used]; exact hex
+  have hnd := hb.nodup
+  simp only [List.map_append, List.map_cons] at hnd
+  have hfresh : d.name ∉ r.names := by
+    rw [hb.names]
+    intro h
+    rw [List.nodup_append] at hnd
+    exact hnd.2.2 _ h _ (by simp) rfl
+  have hms : macrosOf r.raw d.name = dm d := hb.rawRest d (by simp)
+  unfold addProfile
+  rw [addMacros_falsy cfg r d.name none rfl]
+  simp only
+  rw [addStore_ok cfg r d.name d.props ex _ hex', hms]
+  simp only [hfresh, if_false]
+  refine ⟨by first | rfl | trivial, ?_, by first | rfl | trivial⟩
+  have hne_pre : ∀ d' ∈ pre, d.name ≠ d'.name := by
+    intro d' hd' e
+    apply hfresh
+    rw [hb.names, e]
+    exact List.mem_map.mpr ⟨d', hd', rfl⟩
+  have hne_rest : ∀ d' ∈ rest, d.name ≠ d'.name := by
+    intro d' hd' e
+    rw [List.nodup_append] at hnd
+    have := hnd.2.1
+    simp only [List.nodup_cons] at this
+    exact this.1 (e ▸ List.mem_map.mpr ⟨d', hd', rfl⟩)
+  constructor
+  · show r.names ++ [d.name] = (pre ++ [d]).map (·.name)
+    simp [hb.names]
+  · simpa [List.append_assoc] using hb.nodup
+  · exact hb.used
+  · intro d' hd'
+    show dget (dset r.raw d.name _) d'.name = _
+    simp only [List.mem_append, List.mem_singleton] at hd'
+    cases hd' with
+    | inl h => rw [dget_dset_ne _ _ _ _ (hne_pre d' h)]; exact hb.rawPre d' h
+    | inr h => subst h; rw [dget_dset_self]
+  · intro d' hd'
+    show macrosOf (dset r.raw d.name _) d'.name = _
+    rw [macrosOf_dset_ne _ _ _ _ (hne_rest d' hd')]
+    exact hb.rawRest d' (by simp [hd'])
+  · intro n hn
+    have hn' : (dget (dset r.raw d.name { props := some d.props, macros := dm d }) n).isSome := hn
+    rw [dget_dset] at hn'
+    by_cases hx : d.name = n
+    · subst hx; simp
+    · simp only [hx, if_false] at hn'
+      have := hb.rawDom n hn'
+      simpa [List.append_assoc] using this
+  · show dkeys (dset r.compiled d.name (compileDict ex)) = r.names ++ [d.name]
+    rw [dkeys_dset, hb.ckeys]
+    simp [hfresh]
+  · intro d' hd'
+    show ∃ ex', _ ∧ dget (dset r.compiled d.name (compileDict ex)) d'.name = _
+    simp only [List.mem_append, List.mem_singleton] at hd'
+    cases hd' with
+    | inl h =>
+      obtain ⟨ex', h1, h2⟩ := hb.cvals d' h
+      exact ⟨ex', h1, by rw [dget_dset_ne _ _ _ _ (hne_pre d' h)]; exact h2⟩
+    | inr h => subst h; exact ⟨ex, hex, dget_dset_self _ _ _⟩
+  · rfl
+
+theorem bulk_loop (cfg : Cfg) (E : Dict Str) (pre rest : List ProfileDef) (r : Reg)
+    (hb : Bulk cfg E pre rest r) (hex : ∀ d ∈ rest, ∃ ex, expandDict cfg.fuel E d.props = .ok ex) :
+    (addEach cfg r rest).2 = none ∧ Bulk cfg E (pre ++ rest) [] (addEach cfg r rest).1 ∧
+    (addEach cfg r rest).1.default = r.default := by
+  induction rest generalizing pre r with
+  | nil => simpa [addEach] using hb
+  | cons d t ih =>
+    obtain ⟨h1, h2, h3⟩ := bulk_step cfg E pre t d r hb (hex d (by simp))
+    simp only [addEach, h1]
+    obtain ⟨a, b, c⟩ := ih (pre ++ [d]) _ h2 (fun d' hd' => hex d' (by simp [hd']))
+    exact ⟨a, by simpa [List.append_assoc] using b, by rw [c, h3]⟩
+
+theorem bulk_done (cfg : Cfg) (l : List ProfileDef) (r : Reg) (hb : Bulk cfg (bulkEnv cfg.base l) l [] r) :
+    Inv cfg r ∧ contents r = l.map (fun d => { name := d.name, props := d.props, macros := dm d }) := by
+  have hnd : r.names.Nodup := by rw [hb.names]; simpa using hb.nodup
+  have hmac : ∀ d ∈ l, macrosOf r.raw d.name = dm d := fun d hd => by simp [macrosOf, hb.rawPre d hd]
+  have hprop : ∀ d ∈ l, propsOf r.raw d.name = d.props := fun d hd => by simp [propsOf, hb.rawPre d hd]
+  have henv : envOf cfg.base r.raw r.names = bulkEnv cfg.base l := by
+    rw [hb.names]
+    unfold envOf bulkEnv
+    rw [List.foldl_map]
+    have : ∀ (m : Dict Str) (l' : List ProfileDef), (∀ d ∈ l', macrosOf r.raw d.name = dm d) →
+        List.foldl (fun m d => dupdate m (macrosOf r.raw d.name)) m l' = List.foldl (fun m d => dupdate m (dm d)) m l' := by
+      intro m l'
+      induction l' generalizing m with
+      | nil => intro _; rfl
+      | cons a t ih =>
+        intro h
+        simp only [List.foldl_cons, h a (by simp)]
+        exact ih _ (fun d hd => h d (by simp [hd]))
+    exact this _ l hmac
+  refine ⟨⟨hnd, ?_, ?_, ?_, hb.ckeys, ?_, hb.known⟩, ?_⟩
+  · intro n
+    constructor
+    · intro h
+      have := hb.rawDom n h
+      rw [hb.names]; simpa using this
+    · intro h
+      rw [hb.names] at h
+      obtain ⟨d, hd, e⟩ := List.mem_map.mp h
+      rw [← e, hb.rawPre d hd]; rfl
+  · intro n e he
+    have hn := hb.rawDom n (by simp [he])
+    simp only [List.append_nil] at hn
+    obtain ⟨d, hd, e'⟩ := List.mem_map.mp hn
+    rw [← e', hb.rawPre d hd] at he
+    cases he; rfl
+  · rw [henv]; exact hb.used
+  · intro n hn
+    rw [hb.names] at hn
+    obtain ⟨d, hd, e⟩ := List.mem_map.mp hn
+    obtain ⟨ex, h1, h2⟩ := hb.cvals d hd
+    subst e
+    exact ⟨ex, by rw [henv, hprop d hd]; exact h1, h2⟩
+  · unfold contents
+    rw [hb.names, List.map_map]
+    apply List.map_congr_left
+    intro d hd
+    simp [hprop d hd, hmac d hd]
+
+/-- T14.1 (bulk add / `__init__`): `addProfiles` on a registry without profiles, entries named apart, every entry
+expanding under the joint environment: no exception, invariant, contents = the entries in order -/
+theorem addProfiles_inv_empty (cfg : Cfg) (r : Reg) (l : List ProfileDef) (hinv : Inv cfg r) (hempty : r.names = [])
+    (hnd : (l.map (·.name)).Nodup)
+    (hex : ∀ d ∈ l, ∃ ex, expandDict cfg.fuel (bulkEnv cfg.base l) d.props = .ok ex) :
+    (addProfiles cfg r l).2 = none ∧ Inv cfg (addProfiles cfg r l).1 ∧
+    contents (addProfiles cfg r l).1 = l.map (fun d => { name := d.name, props := d.props, macros := dm d }) ∧
+    (addProfiles cfg r l).1.default = r.default := by
+  obtain ⟨p1, p2, p3, p4, p5, p6, p7, p8⟩ := preload_spec r l hnd
+  have hrawnone : ∀ n, dget r.raw n = none := by
+    intro n
+    cases hd : dget r.raw n with
+    | none => rfl
+    | some e =>
+      have := (hinv.rawDom n).mp (by simp [hd])
+      rw [hempty] at this; simp at this
+  have hused : SameEnv r.used cfg.base := by
+    have := hinv.used
+    rw [hempty] at this
+    exact this
+  have hck : r.compiled = [] := by
+    have := hinv.ckeys
+    rw [hempty] at this
+    cases hc : r.compiled with
+    | nil => rfl
+    | cons a t => rw [hc] at this; simp [dkeys] at this
+  have hb : Bulk cfg (bulkEnv cfg.base l) [] l (preloadMacros r l) := by
+    refine ⟨by rw [p2, hempty]; rfl, by simpa using hnd, by rw [p1]; exact bulkEnv_sameEnv hused l,
+      by simp, ?_, ?_, by rw [p3, p2, hempty, hck]; rfl, by simp, by rw [p5, p3]; exact hinv.known⟩
+    · intro d hd
+      rw [p6 d hd]
+      split
+      · rfl
+      · rename_i ht
+        simp [macrosOf, hrawnone, dm, ht]
+    · intro n hn
+      cases p8 n hn with
+      | inl h => rw [hrawnone] at h; simp at h
+      | inr h => simpa using h
+  obtain ⟨a, b, c⟩ := bulk_loop cfg _ [] l _ hb hex
+  simp only [List.nil_append] at b
+  obtain ⟨i, ct⟩ := bulk_done cfg l _ b
+  exact ⟨a, i, ct, by rw [show (addProfiles cfg r l).1.default = (addEach cfg (preloadMacros r l) l).1.default from rfl, c, p4]⟩
+
 /-! ## 7. histories -/
 
 /-- The region in which the code keeps its invariant and nothing fails to expand. Outside it lie the known
-findings: `addProfile` of a registered name with macros, `addProfiles` (bulk add) — see `addProfiles_inv_empty` for
-the empty registry —, `removeProfile(all)` with a non-base macro cache, and operations after which some
-definition no longer expands. -/
+findings: `addProfile` of a registered name with macros, `addProfiles` (bulk add) on a registry that already holds
+profiles, `removeProfile(all)` with a non-base macro cache, and operations after which some definition no longer
+expands. -/
 def Good (cfg : Cfg) (r : Reg) : Op → Prop
   | .add p ps ms => (p ∉ r.names ∨ truthy ms = false) ∧
       Expandable cfg (dset r.raw p { props := some ps, macros := storedMacros r.raw p ms }) (addNames r.names p)
-  | .addMany _ => False
+  | .addMany l => r.names = [] ∧ (l.map (·.name)).Nodup ∧
+      ∀ d ∈ l, ∃ ex, expandDict cfg.fuel (bulkEnv cfg.base l) d.props = .ok ex
   | .remove (some p) => p ∈ r.names → Expandable cfg (derase r.raw p) (r.names.erase p)
   | .remove none => True
   | .removeAll => SameEnv (envOf cfg.base r.raw r.names) cfg.base
@@ -1121,7 +1397,7 @@ def cstep (c : List Entry) : Op → List Entry
         c.map fun e => if e.name = n then
           { name := n, props := ps, macros := if truthy ms then ms.getD [] else e.macros } else e
       else c ++ [{ name := n, props := ps, macros := if truthy ms then ms.getD [] else [] }]
-  | .addMany _ => c
+  | .addMany l => c ++ l.map fun d => { name := d.name, props := d.props, macros := dm d }
   | .remove (some n) => c.filter fun e => e.name ≠ n
   | .remove none => c
   | .removeAll => []
@@ -1178,7 +1454,13 @@ theorem step_good (cfg : Cfg) (r : Reg) (op : Op) (hinv : Inv cfg r) (hg : Good 
         simp [propsOf_dset_ne _ _ _ _ this, macrosOf_dset_ne _ _ _ _ this]
       · simp only [propsOf_dset_self, macrosOf_dset_self, storedMacros, hnone]
         try (split <;> rfl)
-  | addMany l => exact absurd hg (by simp [Good])
+  | addMany l =>
+    obtain ⟨hempty, hnd, hex⟩ := hg
+    obtain ⟨_, hi, hc, hd⟩ := addProfiles_inv_empty cfg r l hinv hempty hnd hex
+    refine ⟨hi, ?_, hd⟩
+    show contents (addProfiles cfg r l).1 = contents r ++ _
+    rw [hc]
+    simp [contents, hempty]
   | remove q =>
     cases q with
     | none => exact ⟨hinv, rfl, rfl⟩
@@ -1274,7 +1556,19 @@ theorem cstep_filter (c : List Entry) (p : Str) (op : Op) (h : ¬ op.mentions p)
       simp only [hin, if_false, hin2, List.filter_append]
       congr 1
       simp [hnp]
-  | addMany l => rfl
+  | addMany l =>
+    simp only [cstep, List.filter_append]
+    congr 1
+    rw [List.filter_eq_self]
+    intro e he
+    obtain ⟨d, hd, hde⟩ := List.mem_map.mp he
+    have : e.name ≠ p := by
+      intro hx
+      apply h
+      show p ∈ l.map (·.name)
+      rw [← hx, ← hde]
+      exact List.mem_map.mpr ⟨d, hd, rfl⟩
+    simp [this]
   | remove q =>
     cases q with
     | none => rfl
@@ -1532,7 +1826,9 @@ theorem add_remove_contents (c : List Entry) (p : Str) (ps : Dict PVal) (ms : Op
               exact h (List.mem_map.mpr ⟨e0, he0, hn'⟩)
           · simp only [List.map_append, List.map_cons, List.map_nil, List.mem_append, List.mem_singleton, not_or]
             exact ⟨h, fun e => hnp e.symm⟩
-        | addMany l => exact h
+        | addMany l =>
+          simp only [cstep, List.map_append, List.mem_append, not_or, List.map_map]
+          exact ⟨h, hop⟩
         | remove q =>
           cases q with
           | none => exact h
